@@ -453,6 +453,20 @@ def evalCopy (src dst : GName) (s : St) : St :=
 def evalMove (src dst : GName) (s : St) : St :=
   if src = dst then s else ((s.clearGraph dst).copyInto src dst).dropGraph src
 
+/-- a graph as WRITTEN in CLEAR / DROP / ADD / MOVE / COPY: the keyword DEFAULT, or an IRI — which may be the
+    IRI of the default graph itself (`urn:x-rdflib:default` of a Dataset, the identifier given to a
+    ConjunctiveGraph) -/
+inductive GraphRef
+  | dflt
+  | iri (n : Nat)
+  deriving DecidableEq, Repr
+
+/-- `_graphOrDefault` and the `.identifier` the evaluators compare: the graph a reference denotes, given the
+    IRI (if any) under which the default graph is also known -/
+def GraphRef.resolve (dfltIri : Option Nat) : GraphRef → GName
+  | .dflt => none
+  | .iri n => if dfltIri = some n then none else some n
+
 /-! ### a request -/
 
 inductive Op
